@@ -53,9 +53,24 @@ def run(chk):
     # kernels of the kinds inv returns on the direct paths: 'transpose and left-product are those of the inverse as well'
     methods.run_methods(chk, "C06", kinds=["TriangularInv", "IterativeOperatorWInfo"], which=("_matmat", "_rmatmat", "to_dense"))
     solve_case(chk)
+    # the solve operators inv returns are functions of (A, alg, right-hand side): their products write no state of the operator other than the
+    # documented `info` output, so a second product with the same inverse cannot depend on the first (frame obligation on the live source)
+    from vcgen import frame
+    from props import c18
+    seen = {}
+    for site, fs in frame.scan_modules()[0]:
+        if site.func.split(".")[0] in ("IterativeOperatorWInfo", "TriangularInv", "LSTSQSolve"):
+            ob, owned = c18.frame_obligation(site, fs, "C06", seen)
+            if ob is not None:
+                chk.under_contract(ob.fn)
+                if owned:
+                    chk.assume("modifies clause (assumed, not proved): " + owned)
+                chk.add(ob)
 
     def replayer(ob):
         w = ob.witness or {}
+        if w.get("engine") == "FRAME":
+            return c18.replay_frame(w)
         if w.get("engine") == "METHOD":
             from vcgen import cex_methods
             return cex_methods.replay(w)
